@@ -2,10 +2,11 @@ package bloomsearch
 
 import (
 	"context"
-	"errors"
+	"fmt"
 	"hash"
 	"hash/crc32"
 	"io"
+	"io/fs"
 	"iter"
 	"log/slog"
 	"sort"
@@ -28,6 +29,8 @@ type vpImgStore struct {
 	opens    int
 }
 
+func vpNoSuchFile() error { return fmt.Errorf("open: %w", fs.ErrNotExist) }
+
 type vpImgWriter struct {
 	s   *vpImgStore
 	id  int
@@ -49,7 +52,7 @@ func (s *vpImgStore) CreateFile(ctx context.Context) (io.WriteCloser, []byte, er
 func (s *vpImgStore) OpenFile(ctx context.Context, p []byte) (io.ReadSeekCloser, error) {
 	data, ok := s.files[vpFileID(p)]
 	if !ok {
-		return nil, errors.New("no such file")
+		return nil, vpNoSuchFile() // what os.Open reports for a tombstoned file: an error wrapping fs.ErrNotExist
 	}
 	s.opens++
 	return &vpSymFile{data: data, minOff: -1}, nil
